@@ -44,9 +44,9 @@ class Abstraction(object):
     def abstract(self, e):
         k = e.get_id()
         if k in self.cache:
-            return self.cache[k]
+            return self.cache[k][1]
         r = self._abstract(e)
-        self.cache[k] = r
+        self.cache[k] = (e, r)      # keep e alive: ids are reused after GC
         return r
 
     def _abstract(self, e):
@@ -263,7 +263,50 @@ def cvc5_prove(ob, timeout_ms=20000):
 
 
 # ---------------------------------------------------------------- NF (sympy)
+def positive_vars(hyps):
+    """Names of real constants the hypotheses state to be > 0."""
+    out = set()
+
+    def isvar(x):
+        return z3.is_const(x) and x.decl().kind() == z3.Z3_OP_UNINTERPRETED
+
+    def num(x):
+        if z3.is_rational_value(x) or z3.is_int_value(x):
+            return S.simp(x)
+        return None
+    for h in hyps:
+        for c in (h.children() if z3.is_and(h) else [h]):
+            neg = False
+            if z3.is_not(c):
+                neg = True
+                c = c.children()[0]
+            if not (z3.is_gt(c) or z3.is_lt(c) or z3.is_ge(c) or
+                    z3.is_le(c)):
+                continue
+            a, b = c.children()
+            k = c.decl().kind()
+            # normalise to  var OP const
+            if isvar(b) and num(a) is not None:
+                a, b = b, a
+                k = {z3.Z3_OP_GT: z3.Z3_OP_LT, z3.Z3_OP_LT: z3.Z3_OP_GT,
+                     z3.Z3_OP_GE: z3.Z3_OP_LE, z3.Z3_OP_LE: z3.Z3_OP_GE}[k]
+            if not isvar(a) or num(b) is None:
+                continue
+            if neg:
+                k = {z3.Z3_OP_GT: z3.Z3_OP_LE, z3.Z3_OP_LT: z3.Z3_OP_GE,
+                     z3.Z3_OP_GE: z3.Z3_OP_LT, z3.Z3_OP_LE: z3.Z3_OP_GT}[k]
+            v = num(b)
+            if (k == z3.Z3_OP_GT and v >= 0) or (k == z3.Z3_OP_GE and v > 0):
+                out.add(str(a))
+    return out
+
+
 def z3_to_sympy(e, symtab=None):
+    """symtab maps constant names to sympy expressions; a name mapped under
+    key ('pos', name) request is handled by the caller: positive variables
+    are entered as squares of positive symbols so that square roots of
+    monomials in them become rational (x = r^2, r > 0 is a bijection of the
+    positive reals, so identities transfer)."""
     import sympy
     symtab = symtab if symtab is not None else {}
 
@@ -278,7 +321,11 @@ def z3_to_sympy(e, symtab=None):
             if n == 'pi':
                 return sympy.pi
             if n not in symtab:
-                symtab[n] = sympy.Symbol(n.replace('!', '_'), real=True)
+                if n in symtab.get('__positive__', ()):
+                    symtab[n] = sympy.Symbol(n.replace('!', '_') + '_r',
+                                             positive=True) ** 2
+                else:
+                    symtab[n] = sympy.Symbol(n.replace('!', '_'), real=True)
             return symtab[n]
         k = x.decl().kind()
         ch = x.children()
@@ -301,7 +348,16 @@ def z3_to_sympy(e, symtab=None):
             return conv(ch[0])
         if k == z3.Z3_OP_UNINTERPRETED:
             n = x.decl().name()
-            a = [conv(c) for c in ch]
+            # canonical form of the arguments, so that applications whose
+            # arguments are equal as rational functions become one atom
+            a = []
+            for c in ch:
+                ca = conv(c)
+                try:
+                    ca = sympy.cancel(ca)
+                except Exception:
+                    pass
+                a.append(ca)
             if n == 'sqrt':
                 return sympy.sqrt(a[0])
             if n == 'exp':
@@ -335,38 +391,262 @@ def nf_is_zero(expr):
     return False
 
 
-def nf_prove(ob):
-    """Equalities (and conjunctions of them) whose two sides are equal as
-    rational functions, independent of the hypotheses."""
-    t0 = time.time()
-    g = ob.goal
+def _ite_conds(e, acc, seen):
+    k = e.get_id()
+    if k in seen:
+        return
+    seen.add(k)
+    if z3.is_app(e) and e.decl().kind() == z3.Z3_OP_ITE:
+        c = e.children()[0]
+        if not any(c.eq(x) for x in acc):
+            acc.append(c)
+    for ch in e.children():
+        _ite_conds(ch, acc, seen)
+
+
+def _nf_eqs(g):
+    """goal -> list of (lhs, rhs) if it is a conjunction of real equalities"""
     eqs = []
 
     def collect(x):
         if z3.is_and(x):
-            for c in x.children():
-                if not collect(c):
-                    return False
-            return True
+            return all(collect(c) for c in x.children())
         if z3.is_eq(x) and not z3.is_bool(x.children()[0]):
-            eqs.append(x)
+            eqs.append(x.children())
             return True
-        if z3.is_true(x):
-            return True
-        return False
-    if not collect(g) or not eqs and not z3.is_true(g):
+        return z3.is_true(x)
+    if not collect(g):
+        return None
+    return eqs
+
+
+def _nf_flat(ob_hyps, goal, tab):
+    eqs = _nf_eqs(goal)
+    if eqs is None:
+        return False, 'not equational'
+    for a, b in eqs:
+        d = z3_to_sympy(a, tab) - z3_to_sympy(b, tab)
+        if not nf_is_zero(d):
+            return False, 'nonzero normal form'
+    return True, ''
+
+
+def _uf_apps(e, acc, seen):
+    k = e.get_id()
+    if k in seen:
+        return
+    seen.add(k)
+    if z3.is_app(e) and e.decl().kind() == z3.Z3_OP_UNINTERPRETED and \
+            e.decl().name() in UF_NAMES:
+        acc.append(e)
+    for ch in e.children():
+        _uf_apps(ch, acc, seen)
+
+
+class LinAbs(object):
+    """Linear abstraction: every non-linear sub-term (product of two
+    non-numerals, division by a non-numeral, power, uninterpreted
+    application) becomes an opaque real variable keyed by its simplified
+    text.  unsat(abstraction) => unsat(original)."""
+
+    def __init__(self, pos=()):
+        self.tab = {}
+        self.cache = {}
+        self.side = []
+        self.terms = {}
+        self.pos = set(pos)
+
+    def var(self, e):
+        k = z3.simplify(e).sexpr()
+        if k not in self.tab:
+            v = z3.Real('la#%d' % len(self.tab))
+            self.tab[k] = v
+            self.terms[k] = e
+            sg = self.sign(e)
+            if sg == '+':
+                self.side.append(v > 0)
+            elif sg == '0+':
+                self.side.append(v >= 0)
+            elif sg == '-':
+                self.side.append(v < 0)
+        return self.tab[k]
+
+    def sign(self, e):
+        """Syntactic sign analysis ('+', '0+', '-', '?') from the positive
+        variables declared in self.pos: products/quotients/sums of positive
+        terms are positive, sqrt(x>0) > 0, exp > 0."""
+        if z3.is_rational_value(e) or z3.is_int_value(e):
+            v = S.simp(e)
+            return '+' if v > 0 else ('-' if v < 0 else '0+')
+        if z3.is_const(e):
+            return '+' if str(e) in self.pos else '?'
+        kind = e.decl().kind()
+        ch = e.children()
+        if kind == z3.Z3_OP_MUL or kind == z3.Z3_OP_DIV:
+            neg = False
+            weak = False
+            for c in ch:
+                sc = self.sign(c)
+                if sc == '?':
+                    return '?'
+                if sc == '-':
+                    neg = not neg
+                if sc == '0+':
+                    if kind == z3.Z3_OP_DIV and c is ch[1]:
+                        return '?'
+                    weak = True
+            if weak:
+                return '?' if neg else '0+'
+            return '-' if neg else '+'
+        if kind == z3.Z3_OP_ADD:
+            sg = [self.sign(c) for c in ch]
+            if all(x in ('+', '0+') for x in sg):
+                return '+' if '+' in sg else '0+'
+            if all(x == '-' for x in sg):
+                return '-'
+            return '?'
+        if kind == z3.Z3_OP_UMINUS:
+            sc = self.sign(ch[0])
+            return {'+': '-', '-': '+'}.get(sc, '?')
+        if kind == z3.Z3_OP_UNINTERPRETED:
+            n = e.decl().name()
+            if n == 'sqrt':
+                return '+' if self.sign(ch[0]) == '+' else '0+'
+            if n == 'exp':
+                return '+'
+            if n == 'pow':
+                return '+' if self.sign(ch[0]) == '+' else '?'
+        if kind == z3.Z3_OP_ITE:
+            a, b = self.sign(ch[1]), self.sign(ch[2])
+            if a == b:
+                return a
+            if a in ('+', '0+') and b in ('+', '0+'):
+                return '0+'
+        return '?'
+
+
+    def ab(self, e):
+        k = e.get_id()
+        if k in self.cache:
+            return self.cache[k][1]
+        r = self._ab(e)
+        self.cache[k] = (e, r)      # keep e alive: ids are reused after GC
+        return r
+
+    def _ab(self, e):
+        if z3.is_const(e) or z3.is_var(e):
+            return e
+        if z3.is_quantifier(e):
+            return z3.BoolVal(True) if z3.is_bool(e) else e
+        kind = e.decl().kind()
+        ch = e.children()
+        num = lambda x: z3.is_rational_value(x) or z3.is_int_value(x)
+        if kind == z3.Z3_OP_MUL:
+            nn = [c for c in ch if not num(c)]
+            if len(nn) >= 2:
+                return self.var(e)
+        elif kind == z3.Z3_OP_DIV:
+            if not num(ch[1]):
+                return self.var(e)
+        elif kind in (z3.Z3_OP_POWER, z3.Z3_OP_IDIV, z3.Z3_OP_MOD):
+            if not all(num(c) for c in ch[1:]):
+                return self.var(e)
+            if kind == z3.Z3_OP_POWER:
+                return self.var(e)
+        elif kind == z3.Z3_OP_UNINTERPRETED:
+            return self.var(e)
+        kids = [self.ab(c) for c in ch]
+        if all(a.eq(b) for a, b in zip(kids, ch)):
+            return e
+        return e.decl()(*kids)
+
+
+def nf_prove(ob, max_cases=400, budget_s=60.0):
+    """Equalities (and conjunctions of them) whose two sides are equal as
+    rational functions.  if-then-else terms (min/max/abs/merged branches) are
+    split into cases.  A case is skipped when its conditions contradict the
+    hypotheses already in the *linear abstraction* (z3 with non-linear
+    arithmetic off: products are opaque atoms -- sound for pruning, fast);
+    every other case must normalise to zero, or be proved by z3 on its own
+    smaller query."""
+    t0 = time.time()
+    g = ob.goal
+    if _nf_eqs(g) is None:
         return Result('unknown', 'nf', time.time() - t0, note='not equational')
     try:
-        tab = {}
-        for e in eqs:
-            a, b = e.children()
-            d = z3_to_sympy(a, tab) - z3_to_sympy(b, tab)
-            if not nf_is_zero(d):
-                return Result('unknown', 'nf', time.time() - t0,
-                              note='nonzero normal form')
+        tab = {'__positive__': positive_vars(ob.hyps)}
+        conds = []
+        _ite_conds(g, conds, set())
+        if not conds:
+            ok, why = _nf_flat(ob.hyps, g, tab)
+            return Result('proved' if ok else 'unknown', 'nf',
+                          time.time() - t0, note=why)
+        la = LinAbs(tab['__positive__'])
+        sol = z3.SolverFor('QF_LRA')
+        sol.set('timeout', 2000)
+        for h in ob.hyps:
+            sol.add(la.ab(z3.simplify(h)))
+        ncase = [0, 0, 0]
+
+        def rec(goal, chosen):
+            if ncase[0] > max_cases or time.time() - t0 > budget_s:
+                return False
+            cs = []
+            _ite_conds(goal, cs, set())
+            if not cs:
+                ncase[0] += 1
+                if z3.is_true(goal):
+                    return True
+                if _nf_eqs(goal) is not None:
+                    ok, why = _nf_flat(None, goal, tab)
+                    if ok:
+                        return True
+                    # opaque non-linear terms the (linear abstraction of
+                    # the) hypotheses force to zero: substitute and retry
+                    g3 = goal
+                    for key, var in list(la.tab.items()):
+                        sol.push()
+                        sol.add(var != 0)
+                        forced = sol.check() == z3.unsat
+                        sol.pop()
+                        if forced:
+                            g3 = z3.substitute(g3, (la.terms[key],
+                                                    z3.RealVal(0)))
+                    if not g3.eq(goal):
+                        g3 = z3.simplify(g3)
+                        if z3.is_true(g3):
+                            return True
+                        if _nf_eqs(g3) is not None and \
+                                _nf_flat(None, g3, tab)[0]:
+                            return True
+                ncase[1] += 1
+                sub = type(ob)(ob.name + '.case', list(ob.hyps) + chosen,
+                               goal, ob.where, ob.kind, ob.extra)
+                return z3_prove(sub, 5000).verdict == 'proved'
+            c = cs[0]
+            for val in (True, False):
+                lit = c if val else z3.Not(c)
+                sol.push()
+                sol.add(la.ab(z3.simplify(lit)))
+                for sd in la.side:
+                    sol.add(sd)
+                feas = sol.check()
+                if feas == z3.unsat:
+                    sol.pop()
+                    ncase[2] += 1
+                    continue
+                g2 = z3.simplify(z3.substitute(goal, (c, z3.BoolVal(val))))
+                ok = rec(g2, chosen + [lit])
+                sol.pop()
+                if not ok:
+                    return False
+            return True
+        ok = rec(z3.simplify(g), [])
+        note = '%d cases (%d via z3, %d infeasible branches)' % tuple(ncase)
+        return Result('proved' if ok else 'unknown', 'nf-cases',
+                      time.time() - t0, note=note)
     except S.VCError as ex:
         return Result('unknown', 'nf', time.time() - t0, note=str(ex))
-    return Result('proved', 'nf', time.time() - t0)
 
 
 def discharge(ob, tier='quick', seed=0, use_nf=True):
